@@ -74,6 +74,7 @@ type Script struct {
 	Probe    bool       `json:"probe"`    // at the end: count admissions of the quiescent conn
 	ProbeC   int        `json:"probe_c"`  // first caller number used by the probe
 	GraceMs  int        `json:"grace_ms"` // how long a call that should return may take
+	Shared   bool       `json:"shared"`   // two connections exchange ONE query buffer concurrently (sharedBuffer)
 	Arm      bool       `json:"arm"`      // C07 mode: EVERY SetReadDeadline is held (steps SrdI / SrdW / Advance)
 	Pause    bool       `json:"pause"`    // insert short sleeps after releases (lets goroutines run before the next step)
 	Beh      any        `json:"beh,omitempty"`
@@ -148,6 +149,27 @@ type run struct {
 	strayN     int
 	grace      time.Duration
 	closedByUs bool
+	bufMu      sync.Mutex
+	bufs       map[[2]int]qbuf // caller's query buffers: (c,g) -> slice handed to ExchangeReserved + pristine copy
+}
+
+type qbuf struct{ buf, orig []byte }
+
+func (r *run) setBuf(c, g int, buf []byte) {
+	r.bufMu.Lock()
+	if r.bufs == nil {
+		r.bufs = map[[2]int]qbuf{}
+	}
+	r.bufs[[2]int{c, g}] = qbuf{buf, append([]byte(nil), buf...)}
+	r.bufMu.Unlock()
+}
+
+// bufOK: is the caller's own query buffer still what the caller passed in? (ExchangeReserved MUST NOT modify q)
+func (r *run) bufOK(c, g int) bool {
+	r.bufMu.Lock()
+	defer r.bufMu.Unlock()
+	b, ok := r.bufs[[2]int{c, g}]
+	return !ok || string(b.buf) == string(b.orig)
 }
 
 func parseQ(payload []byte) (c, g int, ok bool) {
@@ -187,7 +209,7 @@ func (r *run) annotate(op *simnet.Op) []any {
 	if !ok {
 		c, g = -1, -1
 	}
-	return []any{"c", c, "g", g, "wid", int(binary.BigEndian.Uint16(p))}
+	return []any{"c", c, "g", g, "wid", int(binary.BigEndian.Uint16(p)), "bufok", r.bufOK(c, g)}
 }
 
 func noteInt(op *simnet.Op, key string) int {
@@ -350,16 +372,26 @@ func (r *run) doWithdraw(c int) {
 	cl.g++
 }
 
-func (r *run) doStart(c int) {
+func (r *run) doStart(c int) { r.doStartBuf(c, nil) }
+
+// doStartBuf starts c's exchange; shared != nil: with that (already packed) query buffer instead of an own one.
+func (r *run) doStartBuf(c int, shared []byte) {
 	cl := r.caller(c)
-	cl.msgID = r.msgID(cl)
-	cl.qname = fmt.Sprintf("c%dg%d.q%d.Test.", c, cl.g, r.rng.Intn(1000))
-	q := new(dns.Msg)
-	q.SetQuestion(cl.qname, dns.TypeTXT)
-	q.Id = cl.msgID
-	qb, err := q.Pack()
-	if err != nil {
-		panic(err)
+	qb := shared
+	if qb == nil {
+		cl.msgID = r.msgID(cl)
+		cl.qname = fmt.Sprintf("c%dg%d.q%d.Test.", c, cl.g, r.rng.Intn(1000))
+		q := new(dns.Msg)
+		q.SetQuestion(cl.qname, dns.TypeTXT)
+		q.Id = cl.msgID
+		var err error
+		qb, err = q.Pack()
+		if err != nil {
+			panic(err)
+		}
+	}
+	if shared == nil {
+		r.setBuf(c, cl.g, qb)
 	}
 	ctx, cancel := context.WithCancel(context.Background())
 	cl.cancel = cancel
@@ -467,7 +499,11 @@ func (r *run) buildReply(s *send, n int) []byte {
 	return b
 }
 
-func (r *run) deliverReply(c, g, n int) bool {
+func (r *run) deliverReply(c, g, n int) bool { return r.deliverReplyErr(c, g, n, "") }
+
+// deliverReplyErr: with errKind != "" the Read that returns the reply's last byte also returns EOF / an error
+// (simnet.Conn.DeliverLast); the reader's next Read then fails by itself.
+func (r *run) deliverReplyErr(c, g, n int, errKind string) bool {
 	s := r.findSend(c, g)
 	if s == nil {
 		return false
@@ -479,6 +515,13 @@ func (r *run) deliverReply(c, g, n int) bool {
 		s.nrep = n + 1
 	}
 	s.answered = true
+	if errKind != "" {
+		var err error = io.EOF
+		if errKind != "eof" {
+			err = errors.New("simnet: connection reset by peer")
+		}
+		return r.conn.DeliverLast(r.buildReply(s, n), err, errKind, stepWait, "c", c, "g", g, "n", n, "wid", int(s.wid))
+	}
 	return r.conn.Deliver(r.buildReply(s, n), stepWait, "c", c, "g", g, "n", n, "wid", int(s.wid))
 }
 
@@ -739,7 +782,7 @@ func (r *run) steer() (steered bool, why string) {
 				ok = r.deliverStray()
 			} else {
 				r.noteSends()
-				ok = r.deliverReply(st.C, st.G, st.N)
+				ok = r.deliverReplyErr(st.C, st.G, st.N, st.K)
 			}
 			if !ok {
 				return fail("could not deliver")
@@ -794,6 +837,8 @@ func (r *run) steer() (steered bool, why string) {
 		case "Advance": // 30 s of virtual silence, once nothing has moved for a second
 			r.quiesce(time.Second)
 			r.conn.Advance(30 * time.Second)
+		case "Stress":
+			r.stress(time.Duration(st.N) * time.Millisecond)
 		case "Bulk":
 			if err := r.bulk(st.Cnt); err != nil {
 				return fail(err.Error())
@@ -835,6 +880,173 @@ func (r *run) plainExchange(c int) {
 	if !r.collect(c, r.grace) {
 		r.rec.Log("Stuck", "c", c)
 	}
+}
+
+// stress: bounded concurrent hammering of ReserveNewQuery while exchanges register their queries (every Write is
+// held, so nothing finishes meanwhile).  Each round: reserve until the connection is exactly full, start all those
+// exchanges at once and keep calling ReserveNewQuery from three more goroutines until every Write is pending; an
+// admission in that time is logged (Reserve ok, then Withdraw) — whether it was legitimate is for the trace spec.
+// Rounds in which nothing was admitted are dropped from the record and summarized by one Bulk{last} event (they
+// leave the connection quiescent; only its id counter moved), except the first two.
+func (r *run) stress(budget time.Duration) {
+	L := r.sc.MaxCq
+	const hammer = 11
+	r.hold.Store(false)
+	if op := r.conn.Find(isIdleArm); op != nil {
+		op.Complete(nil)
+	}
+	deadline := time.Now().Add(budget)
+	lastWid, dropped := -1, 0
+	for round := 0; time.Now().Before(deadline); round++ {
+		if r.conn.Wait(simnet.IsKind(simnet.OpRead), stepWait) == nil {
+			return
+		}
+		mark := r.rec.Len()
+		gens := map[int]int{}
+		for c := 0; c < L; c++ {
+			gens[c] = r.caller(c).g
+		}
+		if dropped > 0 {
+			r.rec.Log("Bulk", "last", lastWid, "cnt", dropped)
+		}
+		for c := 0; c < L; c++ {
+			if r.doReserve(c) != "ok" {
+				return // recorded; the trace spec judges it
+			}
+		}
+		var admitted atomic.Int32
+		stop := make(chan struct{})
+		var wg sync.WaitGroup
+		for h := 0; h < 3; h++ {
+			wg.Add(1)
+			go func() {
+				defer wg.Done()
+				for {
+					select {
+					case <-stop:
+						return
+					default:
+					}
+					r.rec.Atomic(func(log func(string, ...any)) {
+						if rx, _ := r.dc.ReserveNewQuery(); rx != nil {
+							admitted.Add(1)
+							log("Reserve", "c", hammer, "o", "ok")
+							rx.WithdrawReserved()
+							log("Withdraw", "c", hammer)
+						}
+					})
+				}
+			}()
+		}
+		for c := 0; c < L; c++ {
+			r.doStart(c)
+		}
+		ok := true
+		for c := 0; c < L && ok; c++ {
+			ok = r.waitWrite(c, stepWait) != nil
+		}
+		close(stop)
+		wg.Wait()
+		if !ok {
+			return
+		}
+		for c := 0; c < L; c++ {
+			if s := r.findSend(c, r.caller(c).g); s != nil {
+				lastWid = int(s.wid)
+			}
+			if !r.releaseWrite(c, true) || !r.deliverReply(c, r.caller(c).g, 0) || !r.collect(c, r.grace) {
+				return
+			}
+		}
+		r.sends = r.sends[:0]
+		if r.conn.Wait(simnet.IsKind(simnet.OpRead), stepWait) == nil { // the reader is back in Read: the round is over
+			return
+		}
+		if admitted.Load() == 0 && round >= 2 {
+			r.rec.Truncate(mark)
+			for c, g := range gens { // for the record the dropped round did not happen: call numbers continue from here
+				r.caller(c).g = g
+			}
+			dropped++
+		} else {
+			dropped = 0
+			if admitted.Load() > 0 {
+				return // one recorded admission is enough
+			}
+		}
+	}
+}
+
+// sharedBuffer: ONE packed query (caller id 0x1234) is exchanged concurrently on two datagram connections, as forward
+// does with concurrent > 1: connection A is held inside Write while connection B (whose id counter was advanced, so the
+// wire ids differ) runs its exchange to completion; then A completes.  Recorded: the bytes each connection wrote, whether
+// the caller's buffer was untouched at Write entry (bufok), the id of each returned reply (idok).  The result is two
+// reset-delimited traces (one per connection) in one record.
+func sharedBuffer(idx int, sc *Script, seed int64) (res Result) {
+	res = Result{Idx: idx, Name: sc.Name}
+	scB := *sc
+	scB.Qid0 = 5
+	a, b := newRun(sc, seed), newRun(&scB, seed+1)
+	defer func() {
+		if p := recover(); p != nil {
+			res.Panic = fmt.Sprint(p)
+		}
+		res.Events = append(a.rec.Events(), b.rec.Events()...)
+		a.cleanup()
+		b.cleanup()
+	}()
+	opts := transport.TraditionalDnsConnOpts{WithLengthHeader: !sc.Dgram, IdleTimeout: idleTimeout, MaxConcurrentQuery: sc.MaxCq}
+	for _, r := range []*run{a, b} {
+		r.hold.Store(false)
+	}
+	a.rec.Log("reset", "maxCq", sc.MaxCq, "dgram", sc.Dgram, "qid0", 0, "rd", "arm")
+	a.dc = transport.NewDnsConn(opts, a.conn)
+	b.rec.SetOff(true)
+	b.dc = transport.NewDnsConn(opts, b.conn)
+	if _, err := b.helperRun(scB.Qid0); err != nil {
+		res.Why = "warmup: " + err.Error()
+		return
+	}
+	b.hold.Store(false)
+	b.rec.Log("reset", "maxCq", sc.MaxCq, "dgram", sc.Dgram, "qid0", scB.Qid0, "rd", "read")
+
+	q := new(dns.Msg)
+	q.SetQuestion("c0g0.shared.Test.", dns.TypeTXT)
+	q.Id = 0x1234
+	buf, _ := q.Pack()
+	pristine := append([]byte(nil), buf...)
+	for _, r := range []*run{a, b} {
+		cl := r.caller(0)
+		cl.msgID, cl.qname = 0x1234, "c0g0.shared.Test."
+	}
+	fail := func(m string) { res.Why = m }
+	start := func(r *run) bool {
+		if r.doReserve(0) != "ok" {
+			return false
+		}
+		r.bufMu.Lock()
+		r.bufs = map[[2]int]qbuf{{0, 0}: {buf, pristine}}
+		r.bufMu.Unlock()
+		r.doStartBuf(0, buf)
+		return r.waitWrite(0, stepWait) != nil
+	}
+	finish := func(r *run) bool {
+		return r.releaseWrite(0, true) && r.deliverReply(0, 0, 0) && r.collect(0, r.grace)
+	}
+	if !start(a) { // A stays inside Write
+		fail("A: Write not seen")
+		return
+	}
+	if !start(b) || !finish(b) {
+		fail("B: exchange did not complete")
+		return
+	}
+	if !finish(a) {
+		fail("A: exchange did not complete")
+		return
+	}
+	res.Steered = true
+	return
 }
 
 // ---------------------------------------------------------------------------
@@ -1063,7 +1275,11 @@ func main() {
 			if sc.Random != nil && sc.Random.Seed != 0 {
 				s = sc.Random.Seed
 			}
-			out[i] = runScript(i, sc, s)
+			if sc.Shared {
+				out[i] = sharedBuffer(i, sc, s)
+			} else {
+				out[i] = runScript(i, sc, s)
+			}
 		}(i)
 	}
 	wg.Wait()
